@@ -95,6 +95,7 @@ package io
 //@   let n0 = n
 //@   let lp0 = ghost.rpos[ival(dec.reader)] - dec.tail + dec.head
 //@   modifies @DECWIN, dec.buf[*]
+//@   let lp0 = ghost.rpos[ival(dec.reader)] - dec.tail + dec.head
 //@   atmake [allocation_bounded_by_loaded_input] makecap <= dec.tail - dec.head + len(dec.buf)
 //@   loop 1 invariant n > 0 && len(data) + n == n0 && safe && 0 <= dec.tail && dec.tail <= len(dec.buf) && isnew(arr(data)) && arr(data) != arr(dec.buf)
 //@   loop 1 invariant dec.reader != nil ==> ghost.rpos[ival(dec.reader)] == lp0 + len(data) && len(dec.buf) > 0
@@ -323,6 +324,7 @@ package io
 //@   loop 1 invariant [sticky] old(dec.Error) != nil ==> dec.Error != nil
 //@   ensures [window_well_formed] old(dec.head) <= dec.head && dec.head <= dec.tail && dec.tail == old(dec.tail)
 //@   ensures [result_is_a_view_of_the_window] data == nil || (arr(data) == arr(dec.buf) && off(data) == off(dec.buf) + old(dec.head) && len(data) == dec.head - old(dec.head))
+//@   ensures [consumes_exactly_the_bytes_returned] len(data) == dec.head - old(dec.head)
 //@   ensures [error_is_sticky] old(dec.Error) != nil ==> dec.Error != nil
 
 //@ func (*Decoder).readStringAsBytes
@@ -330,6 +332,7 @@ package io
 //@   nopanic
 //@   use decwf
 //@   modifies @DECWIN, dec.buf[*]
+//@   let lp0 = ghost.rpos[ival(dec.reader)] - dec.tail + dec.head
 //@   atmake [allocation_bounded_by_loaded_input] makecap <= dec.tail - dec.head + len(dec.buf)
 //@   loop 1 invariant [shape] utf16Length >= 0 && 0 <= dec.head && dec.head <= dec.tail && dec.tail <= len(dec.buf) && length == dec.tail - dec.head &&
 //@       (!safe ==> data == nil) && (safe ==> data != nil && isnew(arr(data)) && arr(data) != arr(dec.buf))
@@ -339,15 +342,20 @@ package io
 //@   loop 1 invariant [memory_bytes] dec.reader == nil ==> forall(j, mem(dec.buf, j) == old(mem(dec.buf, j)))
 //@   loop 1 invariant [sticky] old(dec.Error) != nil ==> dec.Error != nil
 //@   loop 1 invariant [bufid] arr(dec.buf) == old(arr(dec.buf)) || isnew(arr(dec.buf))
+//@   loop 1 invariant [stream_consumed_is_returned] dec.reader != nil ==> len(data) == ghost.rpos[ival(dec.reader)] - dec.tail + dec.head - lp0
+//@   loop 1 invariant [memory_consumed_is_returned] dec.reader == nil ==> len(data) == 0 && dec.head == old(dec.head)
 //@   loop 2 invariant [scan] 0 <= off && off <= length + 3 && utf16Length >= 0 && len(buf) == length
 //@   loop 2 invariant [sticky] old(dec.Error) != nil ==> dec.Error != nil
 //@   loop 3 invariant [shape] 0 <= need && need <= 3 && utf16Length >= 0 && 0 <= dec.tail && dec.tail <= len(dec.buf) && safe && data != nil && isnew(arr(data)) && arr(data) != arr(dec.buf)
 //@   loop 3 invariant [room] dec.reader != nil ==> (dec.buf == nil || len(dec.buf) > 0) && ghost.rpos[ival(dec.reader)] >= 0
+//@   loop 3 invariant [stream_consumed_is_returned] dec.reader != nil ==> len(data) == ghost.rpos[ival(dec.reader)] - lp0
 //@   loop 3 invariant [memory] dec.reader == nil ==> same(dec.buf, old(dec.buf)) && dec.tail == old(dec.tail)
 //@   loop 3 invariant [memory_bytes] dec.reader == nil ==> forall(j, mem(dec.buf, j) == old(mem(dec.buf, j)))
 //@   loop 3 invariant [sticky] old(dec.Error) != nil ==> dec.Error != nil
 //@   loop 3 invariant [bufid] arr(dec.buf) == old(arr(dec.buf)) || isnew(arr(dec.buf))
 //@   ensures [negative_length_is_an_error] utf16Length < 0 ==> dec.Error != nil
+//@   ensures [stream_consumes_exactly_the_bytes_returned] dec.reader != nil && dec.Error == nil ==> ghost.rpos[ival(dec.reader)] - dec.tail + dec.head == lp0 + len(data)
+//@   ensures [memory_consumes_exactly_the_bytes_returned] dec.reader == nil && dec.Error == nil ==> dec.head == old(dec.head) + len(data)
 //@   ensures [unsafe_result_is_a_view_of_the_window] !safe && data != nil ==> arr(data) == arr(dec.buf) && len(data) <= len(dec.buf)
 //@   ensures [safe_result_is_private] safe && data != nil ==> isnew(arr(data))
 
